@@ -513,4 +513,4 @@ func (c14pcap) Run(c Case) Result {
 	return res
 }
 
-func (run pcRun) hdr2() string { return "hdr=" + run.hdr }
+func (run pcapRun) hdr2() string { return "hdr=" + run.hdr }
